@@ -26,7 +26,9 @@ COORDS_ANN = ("CoordArray", "CoordList")
 
 
 def extent_axis(e: ast.AST) -> int | None:
-    "axis (0 = rows, 1 = columns) if `e` is the extent of one lattice axis"
+    "axis (0 = rows, 1 = columns) if `e` is the extent of one lattice axis (or that extent plus / minus a constant: the last index)"
+    if isinstance(e, ast.BinOp) and isinstance(e.op, (ast.Add, ast.Sub)) and isinstance(e.right, ast.Constant) and isinstance(e.right.value, int):
+        return extent_axis(e.left)
     if not isinstance(e, ast.Subscript):
         return None
     k = e.slice
@@ -125,6 +127,10 @@ class _Typing:
                 return self.kind(e.args[0])
             if d in ("np.array", "np.asarray", "tuple", "list") and len(e.args) >= 1:
                 return self.kind(e.args[0])
+            if d in ("np.indices", "numpy.indices", "np.mgrid", "np.meshgrid") and e.args:
+                a0 = X.U(e.args[0])
+                if "grid_shape" in a0 or "connection_list.shape[1:]" in a0 or "connection_list.shape[-2:]" in a0:
+                    return "vecs"  # one index grid per lattice axis, stacked: both coordinate components at once
             return None
         if isinstance(e, ast.UnaryOp):
             return self.kind(e.operand)
@@ -178,7 +184,7 @@ def axis_extent_obligations(ctx, fn_info, rule: str | None = None) -> int:
     for cmp_ in [n for n in ast.walk(fn) if isinstance(n, ast.Compare)]:
         operands = [cmp_.left, *cmp_.comparators]
         for i, op in enumerate(cmp_.ops):
-            if not isinstance(op, (ast.Lt, ast.LtE, ast.Gt, ast.GtE)):
+            if not isinstance(op, (ast.Lt, ast.LtE, ast.Gt, ast.GtE, ast.Eq, ast.NotEq)):
                 continue
             a, b = operands[i], operands[i + 1]
             for ext, other in ((a, b), (b, a)):
